@@ -880,7 +880,7 @@ func genCase(t *rapid.T) Case {
 	return c
 }
 
-var prop = &ev.Prop[Case]{Sub: "spec", Quick: 24000, Thorough: 1500000, Gen: genCase, Check: check}
+var prop = &ev.Prop[Case]{Sub: "spec", Quick: 160000, Thorough: 1500000, Gen: genCase, Check: check}
 
 func TestRegress(t *testing.T) { prop.Regress(t) }
 func TestReplay(t *testing.T)  { prop.Replay(t) }
